@@ -218,7 +218,8 @@ mut("c15_old_corrupted_counted_in_default_dir", "src/storage/core.rs", """      
 mut("c07_max_corrupted_id_default_dir", "src/storage/core.rs", """        let mut corrupted_dir_path = config.work_dir()?.to_path_buf();
         corrupted_dir_path.push(config.corrupted_dir_name());""", """        let mut corrupted_dir_path = config.work_dir()?.to_path_buf();
         corrupted_dir_path.push("corrupted");""", ["C07", "C15", "C03"], "ids of quarantined blobs are looked up in the default directory only: reused when the quarantine directory has another name")
-mut("c10_filter_offset_u16", "src/blob/index/bptree/core.rs", "        let fsize = header.meta_size as u64;", "        let fsize = header.meta_size as u16 as u64;", ["C03", "C10", "C01"], "tree metadata located with the filter size truncated to 16 bits: wrong only for filters above 64 KiB (pearl's default bloom configuration)")
+mut("c10_filter_offset_u16", "src/blob/index/bptree/core.rs", "        let fsize = header.meta_size as u64;", "        let fsize = header.meta_size as u16 as u64;", ["C03", "C10", "C01"], "OUTSIDE the properties (performance only): tree metadata located with the filter size truncated to 16 bits; for filters above 64 KiB (pearl's default bloom configuration) the index file then fails its size validation at start-up and is regenerated from the blob - every answer stays the same, which is what C03 demands of a disposable cache")
+mut("c10_offloaded_byte_index_u16", "src/blob/index/bptree/core.rs", "            .read_exact_at_allocate(1, self.header.serialized_size() + i)", "            .read_exact_at_allocate(1, self.header.serialized_size() + (i as u16 as u64))", ["C10", "C04"], "an off-loaded bloom filter is probed at the byte index truncated to 16 bits: wrong only for filters above 64 KiB (pearl's default bloom configuration)")
 mut("c11_enoent_write_acknowledged", "src/record/partially_serialized.rs", """            .map_err(|e| match e.kind() {
                 kind if kind == IOErrorKind::Other || kind == IOErrorKind::NotFound => {
                     Error::file_unavailable(kind).into()
